@@ -59,5 +59,43 @@ let run () =
            let es = List.sort compare (List.map pstr (elems t)) in
            print_endline ((if ok then "inv_ok" else "inv_BROKEN") ^ " " ^ String.concat " " es)
          with _ -> print_endline "tree-parse-error")
+    | "GQ" :: kind :: arg :: qx :: qy :: seed :: nrem :: rest ->
+        (* the GNAT search model (GnatModel.v) on a dumped tree: GQ K|R arg qx qy seed nrem (rx ry)* N ...tree tokens *)
+        (try
+           let nrem = int_of_string nrem and seed = int_of_string seed in
+           let rec take n l acc = if n = 0 then (List.rev acc, l) else (match l with x :: y :: t -> take (n - 1) t ((x, y) :: acc) | _ -> failwith "rem") in
+           let (rem, toks) = take nrem rest [] in
+           let rem = List.map (fun (x, y) -> List.hd (pts [x; y])) rem in
+           let (t, _) = parse_node toks in
+           (* elements get identities (value, occurrence number); the removal cache, printed by value, is attached to
+              data occurrences (a pivot is never in the cache) *)
+           let cnt = Hashtbl.create 16 in
+           let tag v = let c = (try Hashtbl.find cnt v with Not_found -> 0) in Hashtbl.replace cnt v (c + 1); (v, c) in
+           let data_occ = ref [] in
+           let rec tagn (GNode (p, mn, mx, rng, dat, ch)) =
+             let p' = tag p in
+             let dat' = List.map (fun v -> let tv = tag v in data_occ := tv :: !data_occ; tv) dat in
+             GNode (p', mn, mx, rng, dat', List.map tagn ch) in
+           let t' = tagn t in
+           let occ = List.rev !data_occ in
+           let removed_set = ref [] and bad = ref false in
+           List.iter (fun v -> match List.find_opt (fun (w, c) -> peqb w v && not (List.mem (w, c) !removed_set)) occ with
+                               | Some tv -> removed_set := tv :: !removed_set | None -> bad := true) rem;
+           if !bad then print_endline "removed-element-not-in-data"
+           else begin
+             let removed tv = List.mem tv !removed_set in
+             let dd a b = l1 (fst a) (fst b) in
+             let peq a b = peqb (fst a) (fst b) in
+             let offs n = nat_of_int ((seed * 7919 + (int_of_nat n) * 31) land 0xffff) in
+             let pick queue = nat_of_int ((seed * 13 + 17 * List.length queue) land 0xffff) in
+             let q = (List.hd (pts [qx; qy]), -1) in
+             let res = (match kind with
+               | "K" -> gnat_nearestK dd peq removed offs pick (nat_of_int (int_of_string arg)) q t'
+               | _ -> gnat_nearestR dd removed offs pick (z_of_int (int_of_string arg)) q t') in
+             (match res with
+              | Some (nbh, piv) -> print_endline (String.concat " " (string_of_int (List.length nbh) :: List.map (fun (dz, _) -> string_of_int (int_of_z dz)) nbh) ^ (if piv then " piv" else " nopiv"))
+              | None -> print_endline "out-of-fuel")
+           end
+         with _ -> print_endline "gq-parse-error")
     | [] -> ()
     | _ -> print_endline ("? " ^ line))
